@@ -21,15 +21,48 @@ def jobs(tier):
     return js
 
 
+def script_codes(maxlen):
+    out = []
+
+    def rec(prefix, n):
+        if n == 0:
+            return
+        for d in range(1, 9):
+            code = prefix * 9 + d
+            out.append(code)
+            rec(code, n - 1)
+    rec(0, maxlen)
+    return out
+
+
+def enum_jobs(tier):
+    """operation combinations enumerated instead of hand-picked: every script of thread 1 up to the length bound against a
+    fixed second thread [small, flush_log] (and, thorough, every pair of scripts of length <= 2)"""
+    js = []
+    q = tier == "quick"
+    second = 1 * 9 + 4          # [Small, Flush]
+    for scn in (("c08.bd",) if q else ("c08.bd", "c08.ud")):
+        for a in script_codes(3):
+            for cstr in ((0,) if q else (0, 1)):
+                js.append({"scenario": scn, "cfg": {"shape": -1, "t1": a, "t2": second, "tbuf": 2, "cstr": cstr}, "bound": 0, "deadline": 120})
+        if not q:
+            for a in script_codes(2):
+                for b in script_codes(2):
+                    js.append({"scenario": scn, "cfg": {"shape": -1, "t1": a, "t2": b, "tbuf": 1}, "bound": 1, "deadline": 120})
+    return js
+
+
 def run(ctx):
     ctx.rule = ("all schedules up to the preemption bound of 1-2 threads x up to 6 operations from {log small / half-capacity / "
                 "oversize, flush_log, init_backtrace, LOG_BACKTRACE, flush_backtrace, remove_logger_blocking, thread exit} on "
                 "BoundedDropping (256 B) and UnboundedDropping (128->256 B) queues, results of the real log_statement calls "
                 "recorded; result false <=> never delivered, true <=> delivered once in order; sum of 'Dropped N' notifications "
-                "== number of false results (bounded); control requests take effect; distinct = distinct observable outcomes")
+                "== number of false results (bounded); control requests take effect; plus every script of up to 3 operations over the eight "
+                "operation kinds against a second thread [small, flush_log] under bound 0 (thorough: all pairs of scripts <= 2 under bound 1); distinct = distinct observable outcomes")
     ctx.set_deadline(170 if ctx.tier == "quick" else 1800)
     exe = opxlib.build("sc_c08", SRC)
     opxlib.run_jobs(ctx, exe, jobs(ctx.tier), "sc_c08")
+    opxlib.run_jobs(ctx, exe, enum_jobs(ctx.tier), "sc_c08(enum)", explorers=8, workers=2)
     ctx.assumptions.append("three outcomes of a log call: true, false, threw QuillError (accepted only for an unbounded queue and a statement larger than its maximum capacity)")
 
 
